@@ -154,39 +154,6 @@ theorem tie_wire_session_helpers :
 
 /-! ### round 4: semantic ties of the decision-making conditions on the path -/
 
-theorem any_or_fun {α} (l : List α) (p q : α → Bool) :
-    l.any (fun x => p x || q x) = (l.any p || l.any q) := by
-  induction l with
-  | nil => rfl
-  | cons x l ih =>
-    simp only [List.any_cons, ih]
-    cases p x <;> cases q x <;> cases l.any p <;> cases l.any q <;> rfl
-
-theorem any_and_const {α} (l : List α) (a : Bool) (p : α → Bool) :
-    l.any (fun x => a && p x) = (a && l.any p) := by
-  cases a <;> simp
-
-/-- the model's `acceptable`, spelled with the probes the code makes (`errors.Is` per sentinel, `errors.As`,
-the installed user functions) -/
-theorem acceptable_probes (ua : UA) (e : Option Err) :
-    acceptable ua e = (e.isNone || hasCls e .noRows || hasCls e .txDone || hasCls e .canceled ||
-      hasCls e .accType || (ua.a1 && hasCls e .userOk) || (ua.a2 && hasCls e .userOk2)) := by
-  cases e with
-  | none => rfl
-  | some e =>
-    have hf : srcAcceptable ua = fun s =>
-        (srcCls s == some .noRows) || (srcCls s == some .txDone) || (srcCls s == some .canceled) ||
-        (srcCls s == some .accType) || (ua.a1 && srcCls s == some .userOk) ||
-        (ua.a2 && srcCls s == some .userOk2) := by
-      funext s
-      obtain ⟨a1, a2⟩ := ua
-      cases s with
-      | body c => cases c <;> cases a1 <;> cases a2 <;> rfl
-      | commit c => cases c <;> cases a1 <;> cases a2 <;> rfl
-      | rollback c => cases c <;> cases a1 <;> cases a2 <;> rfl
-      | _ => cases a1 <;> cases a2 <;> rfl
-    simp only [acceptable, hasCls, hf, any_or_fun, any_and_const, Option.isNone, Bool.false_or]
-
 /-- **Semantic tie of `commonSqlConn.acceptable`.**  Its decision chain, translated from the source *now*
 (`err == nil || errorx.In(err, sql.ErrNoRows, sql.ErrTxDone, context.Canceled)` → true; `errors.As(err, &e)` with
 `var e acceptableError` → true; `db.accept == nil` → false; else `db.accept(err)`), evaluated with short-circuit
@@ -219,6 +186,18 @@ theorem tie_withAcceptable_sem :
     refine ⟨?_, rfl, rfl⟩
     cases h1 : pre e <;> cases h2 : new e <;> simp [evalBX, List.lookup, h1, h2]
 
+/-- what one `WithAcceptable` option does to the connection in the tree as it is now: the pinned closure (a nil
+argument is installed / later CALLED: finding, `Props.witness_nil_option_violates_orderly_return`) or the one with
+fixes/C14-withacceptable-nil.patch (leading `if acceptable == nil { return }`: `Props.fixed_nil_options_ignored`) -/
+def optionStep : AccFnP → AccFnP → AccFnP :=
+  if withAcceptableNilGuard then withAcceptableFixed else withAcceptablePinned
+
+theorem tie_withAcceptable_nil_guard :
+    (withAcceptableNilGuard = false ∧ optionStep = withAcceptablePinned) ∨
+    (withAcceptableNilGuard = true ∧ optionStep = withAcceptableFixed) := by
+  unfold optionStep
+  cases h : withAcceptableNilGuard <;> simp
+
 /-- the constructors apply the options in order to the connection they return (`for _, opt := range opts
 { opt(conn) }`), after the literal is built -/
 theorem tie_option_loops :
@@ -244,11 +223,100 @@ theorem tie_transact_sem (connOk : Bool) (f : Faults) (b : Body) :
     rw [hr]
     simpa [outcome, transactFn] using h
 
+/-! ### round 5: forwarded arguments, composed along the path, for ALL arguments -/
+
+/-- what `transactOnConn(ctx, conn, b, fn)` hands to the begin function and to the body -/
+def onConnHands (actuals : List V) : List V × List V := (evalFwd fwdOnConnBegin actuals, evalFwd fwdOnConnBody actuals)
+
+/-- `commonSqlConn.TransactCtx(c, f)` followed down to the two calls `b(conn)` and `fn(ctx, tx)` -/
+def pathFromTransactCtx (actuals : List V) : List V × List V :=
+  onConnHands (evalFwd fwdTransactFn (evalFwd fwdTransactCtxThunk actuals))
+
+/-- **Semantic tie of the forwarding, end to end, for every context `c` and body `f` of the caller.**
+Composing the typed argument lists read from the source now: through every entry point the body that runs is the
+caller's body `f` (through `Transact`: adapted by dropping the context), it is handed the transaction `tx` and
+the CALLER's context `c` (through `Transact`: `context.Background()`, which never ends), the begin function is
+the connection's `beginTx` applied to the provider's `conn`, the breaker gets that same context, the thunk around
+`transact`, and `db.acceptable`; the cached entry points pass (c, f) on unchanged.  A dropped, swapped or replaced
+argument at any hop breaks this theorem (and shows in the harness as `cv=0` / a statement that ignores a
+cancellation). -/
+theorem tie_forwarding_sem (c f : Nat) :
+    -- callees of every hop
+    [fwdCachedTransact.callee, fwdCachedTransactCtx.callee, fwdTransact.callee, fwdTransactCtx.callee,
+      fwdTransactCtxThunk.callee, fwdTransactFn.callee, fwdOnConnBegin.callee, fwdOnConnBody.callee] =
+      ["cc.TransactCtx", "cc.db.TransactCtx", "db.TransactCtx", "db.brk.DoWithAcceptableCtx", "transact",
+       "transactOnConn", "b", "fn"] ∧
+    -- TransactCtx(c, f): breaker arguments, and what reaches begin / the body
+    evalFwd fwdTransactCtx [V.ctx c, V.body f false] = [V.ctx c, V.thunk, V.acceptFn] ∧
+    evalFwd fwdTransactCtxThunk [V.ctx c, V.body f false] = [V.ctx c, V.db, V.beginFn, V.body f false] ∧
+    pathFromTransactCtx [V.ctx c, V.body f false] = ([V.conn], [V.ctx c, V.tx]) ∧
+    (evalFwd fwdTransactFn (evalFwd fwdTransactCtxThunk [V.ctx c, V.body f false])).getD 3 V.unknown = V.body f false ∧
+    (evalFwd fwdTransactFn (evalFwd fwdTransactCtxThunk [V.ctx c, V.body f false])).getD 2 V.unknown = V.beginFn ∧
+    -- Transact(f) = TransactCtx(Background, adapted f)
+    evalFwd fwdTransact [V.body f false] = [V.bgCtx, V.body f true] ∧
+    pathFromTransactCtx (evalFwd fwdTransact [V.body f false]) = ([V.conn], [V.bgCtx, V.tx]) ∧
+    -- the cached entry points
+    evalFwd fwdCachedTransactCtx [V.ctx c, V.body f false] = [V.ctx c, V.body f false] ∧
+    evalFwd fwdCachedTransact [V.body f false] = [V.bgCtx, V.body f true] ∧
+    -- parameter orders the positions above refer to
+    fwdTransactCtxParams = ["ctx", "fn"] ∧ fwdTransactFnParams = ["ctx", "db", "b", "fn"] ∧
+    fwdOnConnBodyParams = ["ctx", "conn", "b", "fn"] ∧ fwdCachedTransactCtxParams = ["ctx", "fn"] ∧
+    fwdTransactParams = ["fn"] ∧ fwdCachedTransactParams = ["fn"] := by
+  refine ⟨by decide, ?_, ?_, ?_, ?_, ?_, ?_, ?_, ?_, ?_, by decide, by decide, by decide, by decide, by decide, by decide⟩ <;>
+    simp [pathFromTransactCtx, onConnHands, evalFwd, evalArg, fwdTransactCtx, fwdTransactCtxThunk, fwdTransactFn,
+      fwdOnConnBegin, fwdOnConnBody, fwdTransact, fwdCachedTransactCtx, fwdCachedTransact, List.getD]
+
 /-- `begin`: `db.Begin()`; its error is returned with a nil transaction; else the session around the new Tx -/
 theorem tie_beginBlk : beginBlk =
     (.assignErr (.call "db.Begin()") <|
      .ifc "" "err != nil" (.other "return nil, err" .done) .done <|
      .other "return txSession{ Tx: tx, }, nil" .done) := by decide
+
+/-- **Every statement method of the transaction's session hands the caller's context, the session's OWN
+transaction `t.Tx` and the caller's query / destination / arguments, unchanged and in order, to database/sql**
+(`exec`, `query`, `Tx.PrepareContext`) — for all contexts `c` and values `v q a`; the context-less methods call
+their `…Ctx` twin with `context.Background()` and everything else unchanged.  A statement made with another
+context, on another handle, or with swapped arguments breaks this. -/
+theorem tie_txSession_forwarding_sem (c v q a : Nat) :
+    evalFwd fwdTxExecCtx [V.ctx c, V.val q, V.val a] = [V.ctx c, V.tx, V.val q, V.val a] ∧
+    evalFwd fwdTxPrepareCtx [V.ctx c, V.val q] = [V.ctx c, V.val q] ∧
+    (∀ h ∈ [fwdTxQueryRowCtx, fwdTxQueryRowPartialCtx, fwdTxQueryRowsCtx, fwdTxQueryRowsPartialCtx],
+      h.callee = "query" ∧
+      evalFwd h [V.ctx c, V.val v, V.val q, V.val a] = [V.ctx c, V.tx, V.unknown, V.val q, V.val a]) ∧
+    evalFwd fwdTxExec [V.val q, V.val a] = [V.bgCtx, V.val q, V.val a] ∧
+    evalFwd fwdTxPrepare [V.val q] = [V.bgCtx, V.val q] ∧
+    (∀ h ∈ [fwdTxQueryRow, fwdTxQueryRowPartial, fwdTxQueryRows, fwdTxQueryRowsPartial],
+      evalFwd h [V.val v, V.val q, V.val a] = [V.bgCtx, V.val v, V.val q, V.val a]) ∧
+    [fwdTxExecCtx.callee, fwdTxPrepareCtx.callee, fwdTxExec.callee, fwdTxPrepare.callee, fwdTxQueryRow.callee,
+      fwdTxQueryRowPartial.callee, fwdTxQueryRows.callee, fwdTxQueryRowsPartial.callee] =
+      ["exec", "t.Tx.PrepareContext", "t.ExecCtx", "t.PrepareCtx", "t.QueryRowCtx", "t.QueryRowPartialCtx",
+       "t.QueryRowsCtx", "t.QueryRowsPartialCtx"] ∧
+    -- the scanner each query method passes: strict for QueryRow[s], partial for the …Partial twins
+    [fwdTxQueryRowCtx.args.getD 2 .thunk, fwdTxQueryRowPartialCtx.args.getD 2 .thunk,
+      fwdTxQueryRowsCtx.args.getD 2 .thunk, fwdTxQueryRowsPartialCtx.args.getD 2 .thunk] =
+      [.other "func(rows *sql.Rows) error { return unmarshalRow(v, rows, true) }",
+       .other "func(rows *sql.Rows) error { return unmarshalRow(v, rows, false) }",
+       .other "func(rows *sql.Rows) error { return unmarshalRows(v, rows, true) }",
+       .other "func(rows *sql.Rows) error { return unmarshalRows(v, rows, false) }"] := by
+  refine ⟨?_, ?_, ?_, ?_, ?_, ?_, by decide, by decide⟩ <;>
+    simp [evalFwd, evalArg, fwdTxExecCtx, fwdTxPrepareCtx, fwdTxQueryRowCtx, fwdTxQueryRowPartialCtx,
+      fwdTxQueryRowsCtx, fwdTxQueryRowsPartialCtx, fwdTxExec, fwdTxPrepare, fwdTxQueryRow, fwdTxQueryRowPartial,
+      fwdTxQueryRows, fwdTxQueryRowsPartial, List.getD]
+
+/-- **Semantic tie of `begin`.**  Its control-flow term, read from the source now and run under `runBegin`, is
+exactly what the semantics of `transactOnConn` assumes of `tx, err = b(conn)`: the same driver calls (ONE
+`db.Begin()` with database/sql's retried attempts inside), the same error, and a transaction exactly when one was
+opened — for every fault plan.  A second Begin after a failed one (mutation M10), a swallowed error, a transaction
+handed back together with an error break it. -/
+theorem tie_begin_sem (f : Faults) :
+    (runBegin f beginBlk {}).stuck = false ∧ (runBegin f beginBlk {}).returned = true ∧
+    (runBegin f beginBlk {}).log = (assign ⟨f, [], .ret .nil⟩ {} (.call "b(conn)")).log ∧
+    (runBegin f beginBlk {}).err = (assign ⟨f, [], .ret .nil⟩ {} (.call "b(conn)")).err ∧
+    (runBegin f beginBlk {}).tx = f.opens ∧
+    ((runBegin f beginBlk {}).tx = true ↔ (runBegin f beginBlk {}).err = none) := by
+  obtain ⟨bg, cm, rb, bc, cp, rp, cc, rc⟩ := f
+  cases hg : Faults.givesUp ⟨bg, cm, rb, bc, cp, rp, cc, rc⟩ <;> cases bg <;>
+    simp [beginBlk, runBegin, assign, hg, Faults.opens, Err.of]
 
 /-- the statement methods a body uses inside the transaction all go to the transaction's own `*sql.Tx` with the
 context they were given (ctx-less ones: `context.Background()`); a Session built from a raw Tx
